@@ -68,6 +68,8 @@ func runC12(c *Ctx, r *Report) {
 	importFoundation(c, r, "C12", "read-until")
 	importFoundation(c, r, "C12", "transport-pipe")
 	importFoundation(c, r, "C12", "get-prompt")
+	r.Rule("C12/onx-send-command", "a platform hook's send-command step is a plain (non-eager) send: it leaves no unread prompt behind that would pace the next dialogue", 2)
+	checkOnXSendCommand(c, r, "C12/onx-send-command")
 	r.Rule("C12/echo-error-surfaces", "in the send-input and interactive workers a failed write or echo read ends the exchange (the return / next input is not sent after it)", 6)
 	importObligationsIf(r, func(sub *Report) { runC06(c, sub) }, "C06/propagate", "C12/echo-error-surfaces", func(k string) bool {
 		return strings.Contains(k, "SendInput") || strings.Contains(k, "SendInteractive") || strings.Contains(k, "sendInteractive")
